@@ -42,7 +42,16 @@ def judge_api(o):
             o.get("callback"), "never returned" if o.get("inner_shutdown") == "pending" else "raised %s" % o.get("inner_shutdown"))))
     if o.get("shutdown_raised"):
         bad.append(("shutdown-raises", "shutdown() raised %s" % o["shutdown_raised"]))
-    if o.get("tasks_alive") or o.get("timers"):
+    if o.get("idle", 8000) < 1000:
+        # a new session a second later: the scenario's own later events are still pending as timers of the harness - tasks are judged, timers are not
+        left = o.get("tasks_alive") or o.get("tasks_at_return")
+        if left:
+            chain = all(("_message_received" in t) or t in ("_call",) or ".update_" in t or "_process_" in t or "Env.callback" in t or "on_ac" in t or "on_zone" in t for t in left)
+            # the one history listed in known_findings.txt: shutdown() from outside while an application callback of a status frame is
+            # still running - the task that delivers that frame to the subscribers outlives shutdown()
+            bad.append(("leak-notification-in-flight" if (chain and o.get("slow_callbacks")) else "leak",
+                        "still scheduled when shutdown() returned: tasks %s" % (left,)))
+    elif o.get("tasks_alive") or o.get("timers"):
         bad.append(("leak", "still scheduled after shutdown() returned and 1000 s passed: tasks %s, %d timers" % (o.get("tasks_alive"), o.get("timers", 0))))
     if o.get("after_events"):
         bad.append(("activity", "network activity after shutdown() returned: %s" % (o["after_events"][:4],)))
@@ -57,16 +66,24 @@ def judge_api(o):
     if "reinit_result" in o:
         if o["reinit_result"] is not True:
             bad.append(("reinit", "a later init() returned %s" % (o["reinit_result"],)))
-        elif o.get("reinit_view") != o.get("baseline_view"):
+        elif o.get("reinit_view") != o.get("baseline_view") and not (o.get("idle", 8000) < 1000 and o.get("later_scripted")):
             bad.append(("reinit-model", "the model rebuilt by a later init() differs from a fresh object's"))
         elif o.get("reinit_heartbeats", 0) < 2:
             # the handshake itself asks for the console version once; a heartbeat is a further request
             bad.append(("reinit-heartbeat", "no heartbeat request within 312 s after a later init() (version requests seen: %d, one belongs to the handshake)" % o.get("reinit_heartbeats", 0)))
+        stale = [k for k in o.get("reinit_requests", []) if k in ((0x2A, None), (0x2C, None), (0xC0, 0x20), (0xC0, 0x22))]
+        if o.get("idle", 8000) < 1000 and o.get("later_scripted"):
+            stale = []               # the scenario itself calls / changes the console after the new session began: not the old session's backlog
+        if stale or (o.get("reinit_requests") and o["reinit_requests"][0] != (0x1F, 0x30)):
+            bad.append(("reinit-stale-frames", "the new session transmitted %s first (a fresh object's first frame is the console version request); control frames of the "
+                        "earlier session among them: %d" % (o["reinit_requests"][:4], len(stale))))
         if o.get("gen") == 4 and o.get("reinit_result") is True and o.get("reinit_view") == o.get("baseline_view") and o.get("reinit_group_requests", 0) < 2:
             bad.append(("reinit-poll", "AirTouch 4: no group status request within 312 s of console silence after a later init() (group status requests seen: %d, one belongs to "
                         "the handshake) - a fresh object polls after 300 s" % o.get("reinit_group_requests", 0)))
         if o.get("second_shutdown_raised"):
             bad.append(("reinit-shutdown", "the shutdown() after the later init() raised %s" % o["second_shutdown_raised"]))
+        if o.get("idle", 8000) < 1000:
+            o = dict(o, timers_2=0)
         if o.get("tasks_alive_2") or o.get("timers_2") or o.get("open_conns_2"):
             bad.append(("reinit-leak", "left after the second shutdown(): tasks %s, %s timers, connections %s" % (o.get("tasks_alive_2"), o.get("timers_2"), o.get("open_conns_2"))))
     return bad
@@ -87,9 +104,14 @@ def _settled(sc):
 
 
 def _api_one(job):
-    gen, name, moment, reinit, base_view = job
+    gen, name, moment, reinit, base_view = job[:5]
+    idle = job[5] if len(job) > 5 else 8000
+    extra = job[6] if len(job) > 6 else {}
     try:
-        o = fullstack.run(gen, fullstack.SCENARIOS[name], tuple(moment), reinit)
+        o = fullstack.run(gen, dict(fullstack.SCENARIOS[name], **extra), tuple(moment), reinit, idle=idle)
+        o["slow_callbacks"] = bool(extra.get("callback_delay"))
+        sc_ = fullstack.SCENARIOS[name]
+        o["later_scripted"] = any(t >= o.get("t_shutdown", 0) for t, _ in sc_.get("calls", [])) or any(c[0] >= o.get("t_shutdown", 0) for c in sc_.get("changes", []))
     except Exception as e:  # noqa: BLE001
         return job, None, "%s: %s" % (type(e).__name__, e)
     o["baseline_view"] = base_view
@@ -114,6 +136,18 @@ def api_level(ctx, thorough):
                 # shutdown requested by the application from inside its j-th callback (connection, AC, zone or system subscriber)
                 for k in (0, 1, 2, 3):
                     jobs.append((gen, name, ("callback", j, k), (j + k) % 2 == 0, ref_view))
+            if name == "callbacks":
+                # application callbacks of status frames that take four seconds: shutdown() from outside while one is running, a new session a second later
+                for t in (62, 70, 77, 152):
+                    for k in (0, 1):
+                        jobs.append((gen, name, ("tick", t, k), True, ref_view, 10, dict(callback_delay=30, callback_delay_kinds=("ac", "zone"))))
+            if sc.get("calls") and sc.get("faults"):
+                # commands are waiting for a connection when shutdown() is called, and the application starts a new session a second later
+                # (well inside the commands' 30 s lifetime): nothing of the old session may be transmitted in the new one
+                t_calls = [t for t, _ in sc["calls"]]
+                for t in sorted(set([max(t_calls) + 1, max(t_calls) + 8])):        # (after the scenario's last call: what follows is the old session's backlog only)
+                    for k in (0, 1, 3):
+                        jobs.append((gen, name, ("tick", t, k), True, ref_view, 10))
             horizon = sc.get("horizon", 200)
             ticks_ = sorted(set([1, 2, 15, 16, 17, 39, 40, 41, 42] + [t for t in (2399, 2400, 2401, 2639, 2640, 2641, 4800, 5040, 5041) if t < horizon + 40]
                                 + [ctx.rng.randrange(1, horizon) for _ in range(20 if thorough else 6)]))
@@ -123,7 +157,8 @@ def api_level(ctx, thorough):
     with multiprocessing.get_context("fork").Pool(min(16, os.cpu_count() or 4)) as pool:
         results = pool.map(_api_one, jobs, chunksize=16)
     worst = {}
-    for (gen, name, moment, reinit, _), o, err in results:
+    for job, o, err in results:
+        gen, name, moment, reinit = job[:4]
         if err:
             raise RuntimeError("full-stack harness failed on %r: %s" % ((gen, name, moment), err))
         ctx.case(("api", gen, name, tuple(moment), reinit))
@@ -131,7 +166,7 @@ def api_level(ctx, thorough):
         if o.get("moment_not_reached"):
             ctx.count("api:moment-not-reached")
         for kind, what in judge_api(o):
-            key = "C15:api:%d:%s" % (gen, kind)
+            key = "C15:api:%d:%s" % (gen, kind) if kind != "leak-notification-in-flight" else "C15:api:leak-notification-in-flight"
             if key not in worst:
                 worst[key] = (gen, name, moment, reinit, what, o)
     for key, (gen, name, moment, reinit, what, o) in worst.items():
